@@ -1489,7 +1489,7 @@ theorem naForward_selectRows (fill : Option (Fill R)) (feat f1 : Feat R) (idx : 
   | none => simp only [naForward] at h ⊢; injection h with h; subst h; rfl
   | some fl =>
     cases fl <;> cases feat <;> simp only [naForward, Feat.selectRows] at h ⊢ <;> try (cases h; done)
-    all_goals (injection h with h; subst h; simp only [Feat.selectRows, hsel])
+    all_goals (injection h with h; subst h; simp only [hsel])
 
 theorem all_selectRows {α : Type} (p : α → Bool) (idx : List Nat) (x : List α) (h : x.all p = true) :
     (selectRows idx x).all p = true := by
@@ -1562,7 +1562,7 @@ theorem forward_accepts_batch (e : Encoder R) (B C n : Nat) (feat : Feat R) (o :
   split at h
   · cases h
   · rename_i hn
-    simp only [hn, if_false]
+    simp only [hn]
     cases h1 : naForward S e.fill feat with
     | none => simp [h1, bind, Option.bind] at h
     | some f1 =>
@@ -1608,5 +1608,393 @@ theorem batch_rows_equivariant (e : Encoder R) (B C n : Nat) (feat : Feat R) (o 
     rw [cellAt_selectRows e.params feat idx hidx k c, hk]; exact hv
   exact (perturb_local S e B idx.length C n feat (feat.selectRows idx) o o' i k c v hfill hc h h' hv hv').symm
 end
+
+
+/-! ## missing-value semantics -/
+
+section
+variable {R : Type} (S : SOps R)
+
+/-! ## NaN-lifted scalar -/
+
+@[simp] theorem lift_sub_none (b : Option R) : S.lift.sub none b = none := by cases b <;> rfl
+@[simp] theorem lift_div_none (b : Option R) : S.lift.div none b = none := by cases b <;> rfl
+@[simp] theorem lift_mul_none_left (b : Option R) : S.lift.mul none b = none := by cases b <;> rfl
+@[simp] theorem lift_mul_none_right (a : Option R) : S.lift.mul a none = none := by cases a <;> rfl
+@[simp] theorem lift_add_none_left (b : Option R) : S.lift.add none b = none := by cases b <;> rfl
+@[simp] theorem lift_add_none_right (a : Option R) : S.lift.add a none = none := by cases a <;> rfl
+@[simp] theorem lift_tanh_none : S.lift.tanh none = none := rfl
+@[simp] theorem lift_sin_none : S.lift.sin none = none := rfl
+@[simp] theorem lift_cos_none : S.lift.cos none = none := rfl
+@[simp] theorem lift_nanToNum_none : S.lift.nanToNum none = some S.zero := rfl
+@[simp] theorem lift_nanToNum_some (x : R) : S.lift.nanToNum (some x) = some x := rfl
+@[simp] theorem lift_isNaN_none : S.lift.isNaN none = true := rfl
+@[simp] theorem lift_lt_none_right (a : Option R) : S.lift.lt a none = false := by cases a <;> rfl
+@[simp] theorem lift_nan : S.lift.nan = none := rfl
+@[simp] theorem lift_zero : S.lift.zero = some S.zero := rfl
+
+theorem lift_nanToNum_isSome (a : Option R) : (S.lift.nanToNum a).isSome = true := by cases a <;> rfl
+
+theorem foldl_add_none (xs : List (Option R)) : xs.foldl S.lift.add none = none := by
+  induction xs with
+  | nil => rfl
+  | cons x xs ih => simp [List.foldl_cons, ih]
+
+theorem sum_none_of_mem (xs : List (Option R)) (h : none ∈ xs) : S.lift.sum xs = none := by
+  unfold SOps.sum
+  generalize S.lift.zero = acc
+  induction xs generalizing acc with
+  | nil => cases h
+  | cons x xs ih =>
+    simp only [List.foldl_cons]
+    rcases List.mem_cons.mp h with hx | hx
+    · subst hx
+      simp [foldl_add_none]
+    · exact ih hx _
+
+/-- "all entries are the zero of the base scalar" -/
+def AllZero (v : List (Option R)) : Prop := ∀ x ∈ v, x = some S.zero
+
+theorem allZero_map_nanToNum_of_none (v : List (Option R)) (h : ∀ x ∈ v, x = none) :
+    AllZero S (v.map S.lift.nanToNum) := by
+  intro x hx
+  simp only [List.mem_map] at hx
+  obtain ⟨a, ha, rfl⟩ := hx
+  rw [h a ha]; rfl
+
+theorem zipWith_add_none_left (w : List α) (b : List (Option R)) :
+    ∀ x ∈ List.zipWith S.lift.add (w.map fun _ => none) b, x = none := by
+  intro x hx
+  obtain ⟨a, ha, c, _, rfl⟩ := mem_zipWith hx
+  simp only [List.mem_map] at ha
+  obtain ⟨_, _, rfl⟩ := ha
+  simp
+
+/-- LinearEncoder without NA strategy: a missing (NaN) cell is embedded as the zero vector -/
+theorem linear_missing_zero (m s : Option R) (w b : List (Option R)) :
+    AllZero S ((cellLinear S.lift m s w b none).map S.lift.nanToNum) := by
+  apply allZero_map_nanToNum_of_none
+  unfold cellLinear
+  simp only [lift_sub_none, lift_div_none, lift_mul_none_left]
+  exact zipWith_add_none_left S w b
+
+theorem stack_missing_zero (m s : Option R) (ch : Nat) :
+    AllZero S ((cellStack S.lift m s ch none).map S.lift.nanToNum) := by
+  apply allZero_map_nanToNum_of_none
+  unfold cellStack
+  simp only [lift_sub_none, lift_div_none]
+  intro x hx
+  exact (List.mem_replicate.mp hx).2
+
+theorem excel_missing_zero (m s : Option R) (w1 w2 b1 b2 : List (Option R)) :
+    AllZero S ((cellExcel S.lift m s w1 w2 b1 b2 none).map S.lift.nanToNum) := by
+  apply allZero_map_nanToNum_of_none
+  unfold cellExcel
+  simp only [lift_sub_none, lift_div_none, lift_mul_none_right]
+  intro x hx
+  obtain ⟨p, hp, q, _, rfl⟩ := mem_zipWith hx
+  have := zipWith_add_none_left S w1 b1 p hp
+  subst this
+  simp
+
+theorem vecMat_all_none (x : List (Option R)) (W : Mat (Option R)) (ch : Nat) (h : ∀ a ∈ x, a = none) :
+    AllZero S ((vecMat S.lift x W ch).map S.lift.nanToNum) := by
+  intro y hy
+  simp only [vecMat, List.map_map, List.mem_map, List.mem_range, Function.comp_def] at hy
+  obtain ⟨l, _, rfl⟩ := hy
+  have hall : ∀ t ∈ List.zipWith (fun xk wk => S.lift.mul xk (wk.getD l S.lift.zero)) x W, t = none := by
+    intro t ht
+    obtain ⟨a, ha, wk, _, rfl⟩ := mem_zipWith ht
+    rw [h a ha]; simp
+  cases hl : List.zipWith (fun xk wk => S.lift.mul xk (wk.getD l S.lift.zero)) x W with
+  | nil => simp [SOps.sum]
+  | cons t ts =>
+    have : none ∈ List.zipWith (fun xk wk => S.lift.mul xk (wk.getD l S.lift.zero)) x W := by
+      rw [hl]; have := hall t (by rw [hl]; exact List.mem_cons_self ..); subst this; exact List.mem_cons_self ..
+    rw [← hl, sum_none_of_mem S _ this]; rfl
+
+theorem periodic_missing_zero (m s : Option R) (lin : List (Option R)) (W : Mat (Option R)) (ch : Nat) :
+    AllZero S ((cellPeriodic S.lift m s lin W ch none).map S.lift.nanToNum) := by
+  unfold cellPeriodic
+  apply vecMat_all_none
+  intro a ha
+  simp only [lift_sub_none, lift_div_none, lift_mul_none_right, List.map_map, Function.comp_def, List.mem_append,
+    List.mem_map] at ha
+  rcases ha with ⟨_, _, rfl⟩ | ⟨_, _, rfl⟩ <;> rfl
+
+
+theorem vecMat_has_none (x : List (Option R)) (W : Mat (Option R)) (ch k : Nat) (hk : x[k]? = some none)
+    (hW : k < W.length) : AllZero S ((vecMat S.lift x W ch).map S.lift.nanToNum) := by
+  intro y hy
+  simp only [vecMat, List.map_map, List.mem_map, List.mem_range, Function.comp_def] at hy
+  obtain ⟨l, _, rfl⟩ := hy
+  have : none ∈ List.zipWith (fun xk wk => S.lift.mul xk (wk.getD l S.lift.zero)) x W := by
+    apply List.mem_iff_getElem?.mpr
+    refine ⟨k, ?_⟩
+    simp [List.getElem?_zipWith, hk, List.getElem?_eq_getElem hW]
+  rw [sum_none_of_mem S _ this]; rfl
+
+theorem allZero_add_bias (v b : List (Option R)) (_h : AllZero S (v.map S.lift.nanToNum))
+    (hv : ∀ x ∈ v, x = none) : AllZero S ((List.zipWith S.lift.add v b).map S.lift.nanToNum) := by
+  apply allZero_map_nanToNum_of_none
+  intro x hx
+  obtain ⟨a, ha, c, _, rfl⟩ := mem_zipWith hx
+  rw [hv a ha]; simp
+
+theorem vecMat_none_entries (x : List (Option R)) (W : Mat (Option R)) (ch k : Nat) (hk : x[k]? = some none)
+    (hW : k < W.length) : ∀ y ∈ vecMat S.lift x W ch, y = none := by
+  intro y hy
+  simp only [vecMat, List.mem_map, List.mem_range] at hy
+  obtain ⟨l, _, rfl⟩ := hy
+  have : none ∈ List.zipWith (fun xk wk => S.lift.mul xk (wk.getD l S.lift.zero)) x W := by
+    apply List.mem_iff_getElem?.mpr
+    refine ⟨k, ?_⟩
+    simp [List.getElem?_zipWith, hk, List.getElem?_eq_getElem hW]
+  exact sum_none_of_mem S _ this
+
+/-- LinearBucketEncoder: NaN goes to the last bucket, its `frac` is NaN, the contraction propagates it -/
+theorem bucket_missing_zero (bnd : List (Option R)) (W : Mat (Option R)) (b : List (Option R)) (ch : Nat)
+    (hb : 2 ≤ bnd.length) (hW : bnd.length - 1 ≤ W.length) :
+    AllZero S ((cellBucket S.lift bnd W b ch none).map S.lift.nanToNum) := by
+  unfold cellBucket
+  apply allZero_map_nanToNum_of_none
+  intro x hx
+  obtain ⟨a, ha, c, _, rfl⟩ := mem_zipWith hx
+  have hk : (bucketRow S.lift bnd none)[bnd.length - 2]? = some none := by
+    unfold bucketRow bucketize
+    simp only [lift_isNaN_none, if_true, List.length_dropLast, List.length_drop, lift_sub_none, lift_div_none,
+      lift_lt_none_right]
+    have h1 : bnd.length - 1 - 1 = bnd.length - 2 := by omega
+    rw [h1, List.getElem?_set_self]
+    simp; omega
+  have := vecMat_none_entries S _ W ch (bnd.length - 2) hk (by omega) a ha
+  rw [this]; simp
+
+/-- EmbeddingEncoder: a missing cell (index −1) reads the padding row of the table -/
+theorem embedding_missing_is_padding_row (off : Int) (t : Mat R) (v : Int) (hv : v < 0) :
+    t.getD (embIndex off v).toNat [] = t.getD 0 [] := by
+  simp [embIndex, hv]
+
+/-- MultiCategoricalEmbeddingEncoder: the missing cell `[-1]` becomes the padding index, which every bag
+    mode excludes: the result is the zero vector whatever the table holds -/
+theorem bag_missing_zero (mode : BagMode) (table : Mat R) (ch : Nat) :
+    bagReduce S mode table ch [-1] = List.replicate ch S.zero := by
+  unfold bagReduce
+  cases mode <;> simp [SOps.sum, List.map_const']
+
+/-- TimestampEncoder: a missing timestamp is masked to NaN after the linear layer -/
+theorem timestamp_missing_zero (my : Int) (mv : List Int) (os : Nat) (W : T3 (Option R)) (b : List (Option R))
+    (ch : Nat) (ts : List Int) (hm : tsMissing ts = true) :
+    AllZero S ((cellTimestamp S.lift my mv os W b ch ts).map S.lift.nanToNum) := by
+  apply allZero_map_nanToNum_of_none
+  unfold cellTimestamp
+  simp only [hm, if_true]
+  intro x hx
+  simp only [List.mem_map] at hx
+  obtain ⟨_, _, rfl⟩ := hx
+  rfl
+
+/-- LinearEmbeddingEncoder: an embedding cell with a NaN component -/
+theorem linearEmb_missing_zero (W : Mat (Option R)) (b : List (Option R)) (ch : Nat) (v : List (Option R)) (k : Nat)
+    (hk : v[k]? = some none) (hW : k < W.length) :
+    AllZero S ((cellLinearEmb S.lift W b ch v).map S.lift.nanToNum) := by
+  unfold cellLinearEmb
+  apply allZero_map_nanToNum_of_none
+  intro x hx
+  obtain ⟨a, ha, c, _, rfl⟩ := mem_zipWith hx
+  rw [vecMat_none_entries S v W ch k hk hW a ha]; simp
+
+/-! ## no NaN in the output -/
+
+def PostNaNSafe : Post (Option R) → Prop
+  | .none => True | .relu => True | .tanh => True | .layerNorm _ _ => False
+
+theorem post_keeps_some (p : Post (Option R)) (hp : PostNaNSafe p) (v : List (Option R))
+    (hv : ∀ x ∈ v, x.isSome = true) : ∀ x ∈ Post.apply S.lift p v, x.isSome = true := by
+  cases p <;> simp only [PostNaNSafe] at hp <;> simp only [Post.apply]
+  · exact hv
+  · intro x hx
+    simp only [List.mem_map] at hx
+    obtain ⟨a, ha, rfl⟩ := hx
+    have := hv a ha
+    cases a with
+    | none => cases this
+    | some a =>
+      unfold SOps.relu
+      simp only [SOps.lift, Option.isNone_some, Bool.false_eq_true, if_false]
+      by_cases hlt : S.lt S.zero a = true <;> simp [hlt]
+  · intro x hx
+    simp only [List.mem_map] at hx
+    obtain ⟨a, ha, rfl⟩ := hx
+    have := hv a ha
+    cases a with
+    | none => cases this
+    | some a => rfl
+
+/-- with the NaN-lifted scalar: whatever the input (any missing pattern), the output of `forward` has no NaN -/
+theorem forward_no_nan (e : Encoder (Option R)) (B C n : Nat) (feat : Feat (Option R)) (o : Out (Option R))
+    (hp : PostNaNSafe e.post) (h : forward S.lift e B C n feat = some o) :
+    ∀ row ∈ o.data, ∀ v ∈ row, ∀ x ∈ v, x.isSome = true := by
+  unfold forward at h
+  split at h
+  · cases h
+  · cases h1 : naForward S.lift e.fill feat with
+    | none => simp [h1, bind, Option.bind] at h
+    | some f1 =>
+      cases h2 : encodeForward S.lift e.params e.ch C f1 with
+      | none => simp [h1, h2, bind, Option.bind] at h
+      | some y =>
+        simp only [h1, h2, bind, Option.bind, pure] at h
+        injection h with h
+        subst h
+        apply all_map2' (fun v : List (Option R) => ∀ x ∈ v, x.isSome = true)
+          (fun v : List (Option R) => ∀ x ∈ v, x.isSome = true)
+        · apply all_map2 (fun v : List (Option R) => ∀ x ∈ v, x.isSome = true)
+          intro a x hx
+          simp only [List.mem_map] at hx
+          obtain ⟨z, _, rfl⟩ := hx
+          exact lift_nanToNum_isSome S z
+        · intro a ha
+          exact post_keeps_some S e.post hp a ha
+end
+
+
+section
+variable {R : Type} (S : SOps R)
+
+/-! ## fill values are the column's own statistic -/
+
+theorem mkFill_mean_spec (st : Stype) (stats : List (ColStat R)) (v : List R)
+    (h : mkFill S st (some .mean) stats = some (some (.num v))) (c : Nat) :
+    v[c]? = (stats[c]?).bind statMean := by
+  simp only [mkFill] at h
+  split at h
+  · cases h
+  · cases hq : gather statMean stats with
+    | none => simp [hq] at h
+    | some v' =>
+      simp only [hq, Option.map_some] at h
+      injection h with h; injection h with h; injection h with h
+      subst h
+      exact gather_getElem? _ _ _ hq c
+
+theorem mkFill_time_spec (st : Stype) (na : NA) (hna : na = .oldest ∨ na = .newest ∨ na = .median)
+    (stats : List (ColStat R)) (v : Mat Int)
+    (h : mkFill S st (some na) stats = some (some (.time v))) (c : Nat) :
+    v[c]? = (stats[c]?).bind (statTime na) := by
+  simp only [mkFill] at h
+  split at h
+  · cases h
+  · rcases hna with rfl | rfl | rfl <;> simp only at h
+    all_goals
+      first
+      | (cases hq : gather (statTime NA.oldest) stats with
+         | none => simp [hq] at h
+         | some v' =>
+           simp only [hq, Option.map_some] at h
+           injection h with h; injection h with h; injection h with h
+           subst h
+           exact gather_getElem? _ _ _ hq c)
+      | (cases hq : gather (statTime NA.newest) stats with
+         | none => simp [hq] at h
+         | some v' =>
+           simp only [hq, Option.map_some] at h
+           injection h with h; injection h with h; injection h with h
+           subst h
+           exact gather_getElem? _ _ _ hq c)
+      | (cases hq : gather (statTime NA.median) stats with
+         | none => simp [hq] at h
+         | some v' =>
+           simp only [hq, Option.map_some] at h
+           injection h with h; injection h with h; injection h with h
+           subst h
+           exact gather_getElem? _ _ _ hq c)
+
+theorem mkFill_const_spec (st : Stype) (na : NA) (hna : na = .zeros ∨ na = .mostFrequent)
+    (stats : List (ColStat R)) (fill : Fill R)
+    (h : mkFill S st (some na) stats = some (some fill)) :
+    fill = .num (stats.map fun _ => S.zero) ∨ fill = .int (stats.map fun _ => 0) := by
+  simp only [mkFill] at h
+  split at h
+  · cases h
+  · rcases hna with rfl | rfl <;> simp only at h
+    · split at h <;> (injection h with h; injection h with h; subst h; simp)
+    · injection h with h; injection h with h; subst h; simp
+end
+
+/-! ## denominators in an ordered field -/
+
+section field
+variable {R : Type} [Field R] [LinearOrder R] [IsStrictOrderedRing R]
+
+/-- the scalar record of an ordered field; the transcendental slots are arbitrary functions -/
+def fieldOps (sin cos tanh sqrt : R → R) (pow : R → R → R) (pi : R) : SOps R where
+  zero := 0
+  one := 1
+  nan := 0
+  add := (· + ·)
+  sub := (· - ·)
+  mul := (· * ·)
+  div := (· / ·)
+  sin := sin
+  cos := cos
+  tanh := tanh
+  sqrt := sqrt
+  pow := pow
+  ofInt i := (i : R)
+  ofSci m e := (m : R) / 10 ^ e
+  pi := pi
+  lt a b := decide (a < b)
+  isNaN _ := false
+  isZero x := decide (x = 0)
+  nanToNum x := x
+  round32 x := x
+
+variable (sin cos tanh sqrt : R → R) (pow : R → R → R) (pi : R)
+
+theorem ofSci_pos (e : Nat) : (0 : R) < (fieldOps sin cos tanh sqrt pow pi).ofSci 1 e := by
+  simp only [fieldOps, Nat.cast_one]
+  positivity
+
+/-- `std + 1e-6` is never zero: a standard deviation is non-negative -/
+theorem std_denominator_ne_zero (std : R) (h : 0 ≤ std) :
+    let F := fieldOps sin cos tanh sqrt pow pi
+    F.isZero (F.add std (F.ofSci 1 6)) = false := by
+  intro F
+  have hp := ofSci_pos sin cos tanh sqrt pow pi 6
+  have : std + F.ofSci 1 6 ≠ 0 := by
+    have : 0 < std + F.ofSci 1 6 := by linarith
+    exact ne_of_gt this
+  simpa [F, fieldOps] using this
+
+/-- `boundary_end - boundary_start + 1e-8` is never zero: the boundaries are non-decreasing quantiles -/
+theorem bucket_denominator_ne_zero (st en : R) (h : st ≤ en) :
+    let F := fieldOps sin cos tanh sqrt pow pi
+    F.isZero (F.add (F.sub en st) (F.ofSci 1 8)) = false := by
+  intro F
+  have hp := ofSci_pos sin cos tanh sqrt pow pi 8
+  have : en - st + F.ofSci 1 8 ≠ 0 := by
+    have : 0 < en - st + F.ofSci 1 8 := by linarith
+    exact ne_of_gt this
+  simpa [F, fieldOps] using this
+
+/-- with the division-checking lifted scalar, a non-missing finite cell with finite parameters and a
+    non-negative standard deviation is embedded without producing any non-finite value: `nan_to_num` only ever
+    acts on missing cells -/
+theorem linear_nonmissing_finite (m std x : R) (w b : List R) (h : 0 ≤ std) :
+    let L := (fieldOps sin cos tanh sqrt pow pi).lift
+    ∀ y ∈ cellLinear L (some m) (L.add (some std) (L.ofSci 1 6)) (w.map some) (b.map some) (some x),
+      y.isSome = true := by
+  intro L y hy
+  have hz := std_denominator_ne_zero sin cos tanh sqrt pow pi std h
+  simp only at hz
+  unfold cellLinear at hy
+  obtain ⟨a, ha, c, hc, rfl⟩ := mem_zipWith hy
+  simp only [List.mem_map] at ha hc
+  obtain ⟨a', ha', rfl⟩ := ha
+  obtain ⟨wv, _, rfl⟩ := ha'
+  obtain ⟨bv, _, rfl⟩ := hc
+  simp [L, SOps.lift, hz]
+end field
 
 end TFVerif.Enc
